@@ -10,7 +10,7 @@ for f in os.listdir(src):
     if os.path.isfile(p) and os.path.getsize(p) < 400000 and not f.endswith(".log"):
         shutil.copy(p, os.path.join(dst, f))
 conf = ""
-lp = "/var/tmp/confirm_%s.log" % sid.split("-")[0]
+lp = "/var/tmp/confirm_%s.log" % (sys.argv[7] if len(sys.argv) > 7 else sid.split("-")[0])
 if os.path.isfile(lp):
     for l in open(lp, errors="replace"):
         if l.startswith("CONFIRM"):
